@@ -328,7 +328,7 @@ def tail_ops(rng, side):
 class C15(Prop):
     id = "C15"
     props = "C15_Props"
-    coq_files = ("Base", "C15_Model", "C15_Spec", "C15_Proofs", "C15_ProofsL3", "C15_Props")
+    coq_files = ("Base", "C15_Model", "C15_Spec", "C15_SpecL3", "C15_Proofs", "C15_ProofsL3", "C15_ProofsL3b", "C15_Props")
     models = ("C15_Model",)
     packages = {"tr": "internal/tracer"}
     kinds = {"c15.conn": "tr", "c15.fuzz": "tr"}
